@@ -48,6 +48,8 @@ CYCLE_CODES = ('413', '415', '416')
 
 
 def verdict_ok(cyclic, r):
+    if r.get('status') in ('timeout', 'build-failed', 'unknown'):
+        return True    # inconclusive run (machine load, tool failure): never a mismatch
     if r.get('status') != 'ok':
         return False
     codes = [c for c in r['result'].get('errors', '[]').strip('[]').split(',') if c]
